@@ -149,6 +149,28 @@ Theorem C18_env_exact : forall idx base, check_index idx = true -> base <> "" ->
 Proof. exact env_exact. Qed.
 Print Assumptions C18_env_exact.
 
+(* "inherits no other open descriptor of the runtime or of other plugins": for ANY set of descriptors the runtime has
+   open (other plugins' connections, listeners, files, at any numbers) that carry the close-on-exec flag, and wherever
+   the socket pair sits, the launched process starts with exactly stdin, stdout, stderr and the one socket *)
+Theorem C18_inherits_only_its_socket : forall others a b, Forall (fun f => fd_cloexec f = true) others ->
+  launched_fds others a b = [0; 1; 2; 3]%N.
+Proof. exact launched_fds_exact. Qed.
+Print Assumptions C18_inherits_only_its_socket.
+
+(* not vacuous: with the peer end of the pair left inheritable the plugin also gets it at its original number *)
+Theorem C18_inheritable_peer_refuted : exists others a b,
+  Forall (fun f => fd_cloexec f = true) others /\
+  exec_fds 1 (others ++ socketpair_fds true false a b)%list <> child_fds.
+Proof. exact inheritable_peer_refuted. Qed.
+Print Assumptions C18_inheritable_peer_refuted.
+
+Example C18_fds_example :
+  let others := [ {| fd_num := 4; fd_cloexec := true |}; {| fd_num := 9; fd_cloexec := true |} ] in
+  launched_fds others 12 13 = [0; 1; 2; 3]%N /\
+  exec_fds 1 (others ++ socketpair_fds true false 12 13)%list = [0; 1; 2; 3; 13]%N /\
+  exec_fds 1 ({| fd_num := 6; fd_cloexec := false |} :: others ++ socketpair_fds true true 12 13)%list = [0; 1; 2; 3; 6]%N.
+Proof. repeat split; reflexivity. Qed.
+
 Theorem C18_env_lookup : forall idx base,
   getenv (child_env idx base) PluginNameEnvVar = base /\
   getenv (child_env idx base) PluginIdxEnvVar = idx /\
